@@ -58,7 +58,13 @@ def scan_forbidden():
 
 def coq_build():
     """full .vo build of the whole development (never -vos)"""
-    if not os.path.exists(os.path.join(COQ, 'Makefile')):
+    files = sorted(os.path.relpath(f, COQ) for f in glob.glob(os.path.join(COQ, '*.v')) +
+                   glob.glob(os.path.join(COQ, 'proofs', '*.v')) + glob.glob(os.path.join(COQ, 'props', '*.v')))
+    want = '-Q . TungModel\n' + '\n'.join(files) + '\n'
+    cp = os.path.join(COQ, '_CoqProject')
+    if not os.path.exists(cp) or open(cp).read() != want or not os.path.exists(os.path.join(COQ, 'Makefile')):
+        with open(cp, 'w') as f:
+            f.write(want)
         rc, out = sh('coq_makefile -f _CoqProject -o Makefile', cwd=COQ)
         if rc != 0:
             raise BuildError('coq_makefile failed', out)
